@@ -6,6 +6,7 @@
 // Oracles: object bounds on every buffer (model checker), unwinding assertions (no unbounded loop), generated ub.* obligations,
 // outcome is a normal return or a C++ exception of an expected type, the stream is closed, header parsing is deterministic.
 #include "../io/io.hpp"
+#include <istream>
 #if FORMAT == 1
 #include <boost/gil/extension/io/bmp.hpp>
 using tag_t = gil::bmp_tag;
@@ -36,6 +37,8 @@ extern "C" void h_read(void) {
         try {
 #if DEV == 1
             FILE* fp = (FILE*)vp_fopen_read();
+#elif DEV == 3
+            std::istream& fp = *static_cast<std::istream*>(vp_istream());
 #else
             const char* fp = vp_file_name();
 #endif
@@ -54,9 +57,9 @@ extern "C" void h_read(void) {
             gil::read_and_convert_view(fp, gil::view(img), tag_t());
 #elif ENTRY == 5
             {
-                using device_t = typename gil::get_read_device<decltype(fp), tag_t>::type;
+                using device_t = typename gil::get_read_device<typename std::remove_reference<decltype(fp)>::type, tag_t>::type;
                 using reader_t = gil::scanline_reader<device_t, tag_t>;
-#if DEV == 1
+#if DEV == 1 || DEV == 3
                 device_t dev(fp);
 #else
                 device_t dev(fp, typename gil::detail::file_stream_device<tag_t>::read_tag());
@@ -79,15 +82,30 @@ extern "C" void h_read(void) {
 #endif
     }
 }
-#if ENTRY == 2 && DEV == 1
+#if ENTRY == 2 && (DEV == 1 || DEV == 3)
 // the header is parsed twice from the same bytes: a parser that uses uninitialised memory (short read) as data gives two different answers
 extern "C" void h_info_twice(void) {
     file_builder f((unsigned long)vp_param(0));
     make_file(f);
-    long w1 = -1, h1 = -1, w2 = -2, h2 = -2; int ok1 = 0, ok2 = 0;
-    try { FILE* fp = (FILE*)vp_fopen_read(); auto b = gil::read_image_info(fp, tag_t()); w1 = (long)b._info._width; h1 = (long)b._info._height; ok1 = 1; } catch (std::ios_base::failure const&) { ok1 = 2; }
-    try { FILE* fp = (FILE*)vp_fopen_read(); auto b = gil::read_image_info(fp, tag_t()); w2 = (long)b._info._width; h2 = (long)b._info._height; ok2 = 1; } catch (std::ios_base::failure const&) { ok2 = 2; }
+    long w1 = -1, h1 = -1, x1 = -1, w2 = -2, h2 = -2, x2 = -2; int ok1 = 0, ok2 = 0;
+#if DEV == 3
+#define OPEN_DEV std::istream& fp = *static_cast<std::istream*>(vp_istream())
+#else
+#define OPEN_DEV FILE* fp = (FILE*)vp_fopen_read()
+#endif
+#if FORMAT == 1
+#define EXTRA_FIELD(i) ((long)(i)._bits_per_pixel * 65536 + (long)(i)._compression)
+#elif FORMAT == 2
+#define EXTRA_FIELD(i) ((long)(i)._max_value)
+#else
+#define EXTRA_FIELD(i) ((long)(i)._bits_per_pixel * 65536 + (long)(i)._image_type * 256 + (long)(i)._descriptor)
+#endif
+    // in the model uninitialised locals are arbitrary values: a header field assembled from bytes that a short read never filled differs
+    // between the two parses.  Natively such bytes hold stale stack contents (deterministic), so the replay of these labels runs an
+    // unoptimised build under valgrind memcheck and is confirmed by its report of a use of uninitialised bytes inside boost::gil
+    try { OPEN_DEV; auto b = gil::read_image_info(fp, tag_t()); w1 = (long)b._info._width; h1 = (long)b._info._height; x1 = EXTRA_FIELD(b._info); ok1 = 1; } catch (std::ios_base::failure const&) { ok1 = 2; }
+    try { OPEN_DEV; auto b = gil::read_image_info(fp, tag_t()); w2 = (long)b._info._width; h2 = (long)b._info._height; x2 = EXTRA_FIELD(b._info); ok2 = 1; } catch (std::ios_base::failure const&) { ok2 = 2; }
     vp_assert(ok1 == ok2, "io.header_outcome_deterministic");
-    if (ok1 == 1 && ok2 == 1) vp_assert(w1 == w2 && h1 == h2, "io.header_values_deterministic");
+    if (ok1 == 1 && ok2 == 1) vp_assert(w1 == w2 && h1 == h2 && x1 == x2, "io.header_values_deterministic");
 }
 #endif
